@@ -25,6 +25,12 @@ int main(int argc, char** argv) {
             // the sequential digest comes from a separate object with the same parameters; the shared object of each round is FRESH:
             // its first use happens inside the threads (lazily initialised caches are filled on first use)
             std::unique_ptr<dz::Box> ref(kv.second(p));
+            {   // before ANY const use: the constants the normalising predicates may be handed are stored normalised -- also in a copy,
+                // a copy of a copy and an assignment target (read-only inspection of the representation, no library predicate involved)
+                std::unique_ptr<dz::Box> c1(ref->copy()), c2(c1->copy()), c3(kv.second(1 - p));
+                c3->assign(*ref);
+                printf("norm %s.%d = %d %d %d %d\n", kv.first.c_str(), p, (int)ref->normalised(), (int)c1->normalised(), (int)c2->normalised(), (int)c3->normalised());
+            }
             const uint64_t seq = dz::fnv(ref->probe());
             for (int nt : tcounts) {
                 std::unique_ptr<dz::Box> shared(kv.second(p));
